@@ -89,6 +89,13 @@ def scenario(draw):
     sigint = draw(st.integers(0, 9)) == 0
     if sigint:
         drivers.append([{"at_ms": draw(st.sampled_from([0, 5, 40])), "op": "sigint"}])
+    if not sigint and all(p["kind"] in ("exc", "ret") for p in payloads if p["role"] == "failing"):
+        # asyncio bystanders that absorb their first cancellation(s) and only then wind down (e.g. a suppressed CancelledError
+        # around an inner await). Only where cobald itself closes the runners: when the loop is torn down by a BaseException or
+        # an interrupt, asyncio's own teardown cancels once and such a payload never ends (DESIGN.md section 11)
+        for b in payloads:
+            if b["role"] == "bystander" and b["flavour"] == "asyncio" and b.get("state") != "spinning" and draw(st.integers(0, 2)) == 0:
+                b["stubborn"] = draw(st.sampled_from([1, 1, 2]))
     sc = {"runner": runner, "accept_delay": draw(accept_delay), "switchinterval": draw(switchinterval), "bound_s": BOUND,
           "linger_ms": 30, "payloads": payloads, "drivers": drivers, "sigint": sigint}
     if draw(st.integers(0, 4)) == 0 and len(payloads) <= 8:
@@ -233,7 +240,8 @@ def run_case(sc) -> Result:
     for p in failing:
         res.cls(f"{p['flavour']}:{p['kind']}:{p['regmode']}")
     res.cls("runner:" + sc["runner"], "failing:%d" % len(failing), "bystanders:%d" % min(len(others), 6), "sigint:" + str(bool(sc.get("sigint"))),
-            "schedule-perturbed:" + str(bool(sc.get("trace_delay"))))
+            "schedule-perturbed:" + str(bool(sc.get("trace_delay"))),
+            "absorbing-bystander:" + str(any(p.get("stubborn") for p in sc["payloads"])))
     flavours = {p["flavour"] for p in failing}
     res.nontrivial = (
         len(failing) >= 2
